@@ -276,7 +276,7 @@ def run(ctx):
     import random
 
     graphs = small_graphs()
-    reps = ctx.n(18, 120)
+    reps = ctx.budget(45, 900)
     k = 0
     for rep in range(reps):
         for gi, (n, es) in enumerate(graphs):
@@ -290,7 +290,7 @@ def run(ctx):
             ctx.run_case(lattice_case, ctx, rng, n, es, "exhaustive<=4" if rep == 0 else None)
             if rep % 2 == 0:
                 ctx.run_case(site_info_case, ctx, rng, n, es)
-    for _, rng in ctx.cases("random-graphs", ctx.n(500, 8000)):
+    for _, rng in ctx.cases("random-graphs", ctx.budget(1250, 25000)):
         n, es = random_graph(rng)
         ctx.run_case(lattice_case, ctx, rng, n, es)
         ctx.run_case(site_info_case, ctx, rng, n, es)
